@@ -27,7 +27,8 @@ def split_cells(s):
 class C02(verif.Spec):
     prop = "C02"
     comp = "fmt"
-    lean_modules = ["ZvbiModel.Props.C02", "ZvbiModel.Props.C02Roundtrip", "ZvbiModel.Props.C02Interleave"]
+    lean_modules = ["ZvbiModel.Props.C02", "ZvbiModel.Props.C02Roundtrip", "ZvbiModel.Props.C02Interleave",
+                    "ZvbiModel.Props.C02Serial"]
     harness = "fmt_harness"
     harness_link_lib = True
     timeout_per_case = 10.0
@@ -38,12 +39,11 @@ class C02(verif.Spec):
                     "magazines interleaved (Props/C02Interleave: interleaved_page_roundtrip, from any state of a parallel-mode "
                     "network; the four interferences E1-E4 it excludes are proved real and replayed on the C code) and from every "
                     "reachable state for one magazine stream (single_page_roundtrip_reachable; shape invariants reachable_shape); "
-                    "whole cycles of pages and serial mode are open statements covered by the network oracle; "
+                    "serial mode is proved for one transmission terminated by a header of any magazine (Props/C02Serial: "
+                    "page_roundtrip_serial, page_roundtrip_serial_fetch); whole cycles of pages are an open statement covered by the network oracle; "
                     "Level 2.5/3.5 enhancement, X/26, TOP navigation, zap_links are not modelled.")
     open_statements = ["Zvbi.Props.C02.format_refines_L1Spec_full (false on the unchanged tree: see ..._counterexample)",
-                       "Zvbi.Props.C02.page_roundtrip_full (a chain of transmissions from a fresh decoder: follows from C02Roundtrip.single_page_roundtrip by induction over the pages once the shape invariant lopRaw.length = 26 and the consistent-header => no Event.chsw step are added; see NOTES/C02.md)",
-                       "Zvbi.Props.C02Roundtrip.interleaved_page_roundtrip_full (needs magazine_isolation, which holds only outside four exception classes E1-E4; see NOTES/C02.md)",
-                       "Zvbi.Props.C02Roundtrip.page_roundtrip_serial_full (serial mode: termination by a header of any magazine)"]
+                       "Zvbi.Props.C02.page_roundtrip_full / Zvbi.Props.C02Serial.page_roundtrip_chain_full (a whole cycle of transmissions of one magazine from a fresh decoder: the step is C02Interleave.single_page_roundtrip_from_init, which needs no shape or channel-switch hypothesis any more; missing: the invariant 'only text pages announced' that discharges the step's TextPage hypothesis along the run, and the assembly of the per-page look-up claims with C02Serial.stored_page_survives_put; see NOTES/C02.md)"]
     assumptions = ["consistent page header across the network (header columns 8-31 equal except the page number)",
                    "regular frame timestamps (40 ms)", "no X/26, X/28, M/29 packets; no MOT/MIP/TOP pages",
                    "page numbers decimal 100-899, subpages 00-79"]
